@@ -532,6 +532,9 @@ void recipeRebuild(RunState& rs) {
             checkAfterRebuild(rs, *w, before);
             doQuery();
             cellsZero = true;
+        } else if (op.op == "top") {
+            doExecute(rs, *w, op, sc.isTaskBased(), "run");
+            cellsZero = false;
         } else if (op.op == "execute") {
             // expected = preserved results + results of the same executor on a freshly built tree
             auto before = rhsByIndex(w->view());
@@ -580,6 +583,7 @@ Json runScenario(const Scenario& sc) {
     Ctx& ctx = *g_ctx;
     ctx.resetRun();
     ctx.runKey = sc.runKey;
+    ctx.kernelParam = sc.ctorWithKernel ? (wkHash(sc.runKey, 0xC7, 1, 2) | 1) : 0;
     ctx.topTreeCall = false;
     prepareInputs(ctx, sc);
     setupSim(ctx, sc);
